@@ -368,6 +368,65 @@ def run_limit_case(acc: Acc, case):
     return fails
 
 
+def run_limit_history(acc: Acc, case):
+    """Getters and setters interleaved on ONE object: every getter returns what the most recent setter of that quantity set (or
+    what the registers held before any setter) - also right after an earlier getter, another setter or a mode change."""
+    acc.case()
+    variant = case["variant"]
+    acc.nontrivial(variant, "limit-history", repr(case["ops"]))
+    inv, sim = build(variant)
+    last = {}
+    for i, (op, arg) in enumerate(case["ops"]):
+        try:
+            if op == "set_export":
+                run_sync(inv.set_grid_export_limit(arg))
+                last["export"] = arg
+            elif op == "set_dod":
+                run_sync(inv.set_ongrid_battery_dod(arg))
+                last["dod"] = arg
+            elif op == "get_export":
+                got = run_sync(inv.get_grid_export_limit())
+                if "export" in last and got != last["export"]:
+                    return [("C19|%s|export-limit|differs|after-history" % variant, "step %d of %s: get_grid_export_limit() = %r, last set %r" % (
+                        i, case["ops"], got, last["export"]), case)]
+            elif op == "get_dod":
+                got = run_sync(inv.get_ongrid_battery_dod())
+                if "dod" in last and got != last["dod"]:
+                    return [("C19|%s|dod|differs|after-history" % variant, "step %d of %s: get_ongrid_battery_dod() = %r, last set %r" % (
+                        i, case["ops"], got, last["dod"]), case)]
+            elif op == "settings":
+                run_sync(inv.read_settings_data())
+            elif op == "runtime":
+                run_sync(inv.read_runtime_data())
+            elif op == "mode":
+                run_sync(inv.set_operation_mode(arg))
+        except Exception as ex:
+            from goodwe.exceptions import InverterError
+            if isinstance(ex, (InverterError, ValueError)) and op in ("settings", "runtime", "mode"):
+                continue
+            return [("C19|%s|limit-history|raised|%s" % (variant, type(ex).__name__), "step %d (%s) of %s: %r" % (i, op, case["ops"], ex), case)]
+    return []
+
+
+def limit_history_job(job):
+    variant, = job
+    acc = Acc()
+    dt = variant.startswith("DT")
+    seqs = []
+    for a, b in ((0, 5000), (4000, 0), (123, 124), (65534, 1)):
+        seqs.append([("get_export", 0), ("set_export", a), ("get_export", 0), ("set_export", b), ("get_export", 0), ("get_export", 0)])
+        seqs.append([("settings", 0), ("set_export", a), ("get_export", 0), ("runtime", 0), ("set_export", b), ("settings", 0), ("get_export", 0)])
+    if not dt:
+        for a, b in ((0, 100), (80, 20), (99, 1), (50, 51)):
+            seqs.append([("get_dod", 0), ("set_dod", a), ("get_dod", 0), ("set_dod", b), ("get_dod", 0)])
+            seqs.append([("get_dod", 0), ("get_export", 0), ("set_dod", a), ("set_export", 7 * a), ("get_export", 0), ("get_dod", 0), ("mode", 0), ("get_dod", 0),
+                         ("set_dod", b), ("settings", 0), ("get_dod", 0), ("get_export", 0)])
+    for ops in seqs:
+        _apply(acc, {"variant": variant, "what": "history", "ops": [list(o) for o in ops]}, run_limit_history)
+    acc.sample({"variant": variant, "what": "history", "ops": [list(o) for o in seqs[0]]})
+    return acc
+
+
 def limit_job(job):
     variant, lo, hi, step = job
     acc = Acc()
@@ -422,6 +481,7 @@ def run(ctx):
         for lo in range(0, 65535, 8192):
             lj.append((v, lo, min(65535, lo + 8192), step))
     ctx.shard(limit_job, lj, "export limits (%s) and DoD 0..100" % ("all 0..65534" if not ctx.quick else "every 13th value of 0..65534"))
+    ctx.shard(limit_history_job, [(v,) for v in VARIANTS], "export limit / DoD getters and setters interleaved on one object (get, set, get, set, get ...)")
     n = ctx.pick(1600, 40000)
     ctx.shard(hyp_job, [(ctx.seed * 1000 + i, n // 16) for i in range(16)], "hypothesis (variant, mode, power, SoC, priors of group 1 and groups 2-4)")
 
@@ -429,6 +489,8 @@ def run(ctx):
 def replay(ctx, case):
     if "encoder" in case:
         ctx.acc.merge(encoder_job((case["encoder"], case["power"], case["power"] + 1)))
+    elif case.get("what") == "history":
+        _apply(ctx.acc, case, run_limit_history)
     elif "what" in case:
         _apply(ctx.acc, case, run_limit_case)
     else:
